@@ -258,6 +258,7 @@ Post == PrintT(<<"MAXL", TLCGet(1), Len(Log)>>) /\ TLCGet(1) > Len(Log)
 
 (* properties evaluated on every validated build *)
 TOutputsClean == (last.a = "Build") => OutputsClean
+TOutputsCleanStrict == (last.a = "Build") => OutputsCleanStrict
 TFailureStops == (last.a = "Build") => FailureStops
 TRefusalHidesNoFailure == (last.a = "Build") => RefusalHidesNoFailure
 TStaleOnlyObsolete == (last.a = "Build") => StaleOnlyObsolete
